@@ -76,6 +76,7 @@ def explore(res, text, tags, seed, nrand, pool, model=None, sort_lists=False, pr
     seen = set()
     sample = None
     failed_modes = set()
+    wrong_modes = set()
     cyclic = prog is not None and "has_pos_cycle" in tags
     for idx, (mode, choice) in enumerate(runs):
         o, log = run_mode(text, mode, choice, model, sort_lists, budget, evaluator="both" if idx == real_idx else "fast")
@@ -114,6 +115,9 @@ def explore(res, text, tags, seed, nrand, pool, model=None, sort_lists=False, pr
         if owner is not None and prog is not None and "has_pos_cycle" in tags and m.get("faulty_is") == "alternative" \
                 and str(m.get("faulty", "")).split(":")[0] in ("err", "crash"):
             failed_modes.add(mode)
+        if owner is not None and prog is not None and "has_pos_cycle" in tags and m.get("kinds") in ("prob", "instances") \
+                and not m.get("zero_prob_only"):
+            wrong_modes.add(mode)
         if owner is not None:
             key = "absorbed:%s:%s" % (owner, sig)
             for v in res["violations"]:
@@ -135,6 +139,8 @@ def explore(res, text, tags, seed, nrand, pool, model=None, sort_lists=False, pr
         rc["cyclic_programs"] = rc.get("cyclic_programs", 0) + 1
         for mo in failed_modes:
             rc["failing_" + mo] = rc.get("failing_" + mo, 0) + 1
+        for mo in wrong_modes:
+            rc["wrong_" + mo] = rc.get("wrong_" + mo, 0) + 1
     if len(res["samples"]) < 1 and sample:
         res["samples"].append({"program": text if len(text) < 1500 else name, "tags": tags,
                                "default": {k: base.get(k) for k in ("kind", "results", "cls", "steps")}, "alternative": sample})
@@ -212,6 +218,7 @@ def build_violation(sig, sigt, base, mode, log, text, tags, prog, model, sort_li
 # attributes to the (class-level) F5/F15 findings. Measured on the unchanged tree (quick tier, ~1600 cyclic programs): D 1.9 %, Drc 1.5 %, R 16 % (any of 4 random orders).
 # The individual failures are known; a jump of the rate is not.
 RATE_LIMIT = {"D": 0.08, "Drc": 0.08, "R": 0.32}
+WRONG_LIMIT = 0.015  # share of cyclic programs with a silent wrong answer attributed to F17 / F17-class
 
 
 def post_merge(acc):
@@ -221,6 +228,13 @@ def post_merge(acc):
     out = []
     if n < 300:
         return out
+    for mode in ("D", "Drc", "R"):
+        r = rc.get("wrong_" + mode, 0) / float(n)
+        if r > WRONG_LIMIT:
+            sig = "wrong:%s" % mode
+            out.append({"signature": sig, "summary": "%s: mode %s silently returns a wrong answer on %.2f %% of %d cyclic programs (limit %.1f %%, unchanged tree < 0.2 %%)" % (
+                sig, mode, 100 * r, n, 100 * WRONG_LIMIT), "match": {"signature": sig, "mode": mode},
+                "replay": {"rate": True, "wrong": True, "mode": mode, "limit": WRONG_LIMIT, "case_digest": digest(("wrong", mode))}})
     for mode, lim in RATE_LIMIT.items():
         r = rc.get("failing_" + mode, 0) / float(n)
         if r > lim:
@@ -286,9 +300,10 @@ def replay(doc):
                 acc[k] = acc.get(k, 0) + v
         n = max(acc.get("cyclic_programs", 0), 1)
         mode = doc["mode"]
-        rate = acc.get("failing_" + mode, 0) / float(n)
+        key = "wrong_" if doc.get("wrong") else "failing_"
+        rate = acc.get(key + mode, 0) / float(n)
         if rate > doc.get("limit", RATE_LIMIT[mode]):
-            sig = "rate:%s" % mode
+            sig = ("wrong:%s" if doc.get("wrong") else "rate:%s") % mode
             return [{"signature": sig, "summary": "%s: %.1f %% of %d cyclic programs" % (sig, 100 * rate, n), "match": {"signature": sig, "mode": mode},
                      "replay": dict(doc)}]
         return []
